@@ -12,7 +12,7 @@ The event list `self.trace` (shim events + the controller's own actions) is what
 TLA+ trace validators consume after projection (see qsproj.py).
 """
 import os, socket, select, json, signal, time, subprocess, struct, errno, shutil
-import sandbox
+import sandbox, repframe
 from vlib import Infra, log
 
 
@@ -58,6 +58,7 @@ class Controller:
         self.chan = {}            # pipes to/from qmail-send
         self.cmdbuf = {0: b"", 1: b""}
         self.delcmds = []         # parsed delivery commands not yet answered: dict(chan, delnum, id, sender, rcpt)
+        self.framer = repframe.Framer()
         self.logfile = os.path.join(workdir, "send.log")
         self.seq = 0
         self.qdir = os.path.join(tree.root, "queue")
@@ -380,9 +381,14 @@ class Controller:
     def report(self, chan, delnum, text, raw=False):
         """one delivery report on a report channel: delnum byte, text (K.../Z.../D.../garbage), NUL"""
         data = text if raw else bytes([delnum]) + text + b"\0"
-        self.delcmds = [c for c in self.delcmds if not (c["chan"] == chan and c["delnum"] == delnum)] if not raw else self.delcmds
+        for fr in self.framer.feed(chan, data):
+            # the daemon takes the first delivery with that number as answered (whatever the letter)
+            self.delcmds = [c for c in self.delcmds if not (c["chan"] == chan and c["delnum"] == fr[0])]
         self.emit({"c": "ctl", "op": "report", "chan": chan, "delnum": delnum, "hex": data.hex(), "raw": 1 if raw else 0})
-        os.write(self.chan["lrep" if chan == 0 else "rrep"], data)
+        try:
+            os.write(self.chan["lrep" if chan == 0 else "rrep"], data)
+        except BrokenPipeError:
+            pass          # the daemon is gone (its exit is in the trace as `reaped`)
         for q in self.procs.values():
             if q.state == "parked":
                 q.dirty = True
@@ -459,6 +465,7 @@ class Controller:
         for k in list(self.chan):
             os.close(self.chan.pop(k))
         self.delcmds = []
+        self.framer.reset()
         if lossy_choice:
             lossy_choice(self)
 
